@@ -111,7 +111,7 @@ func cmdCheck(args []string) int {
 	wdir := filepath.Join(*work, *prop)
 	os.RemoveAll(wdir)
 	os.MkdirAll(wdir, 0o755)
-	opt := SolveOptions{Timeout: 15 * time.Second, Seeds: []int{seed}, WorkDir: wdir, Parallel: 10, KeepAll: *keep}
+	opt := SolveOptions{Timeout: 25 * time.Second, Seeds: []int{seed}, WorkDir: wdir, Parallel: 10, KeepAll: *keep}
 	if *tier == "thorough" {
 		opt.Timeout = 60 * time.Second
 		opt.Seeds = []int{seed, seed + 1, seed + 2}
